@@ -6,7 +6,7 @@ ROOT = os.path.dirname(os.path.dirname(os.path.abspath(__file__)))
 # id -> (category, technique, level text, level note, design ref, engine)
 CHECKS = {
  "C16": ("exploration", "reference-model monitor (sorted map / sorted multiset) shadowing the real skip list and merge heap; exhaustive permutations <=7 keys + seeded random",
-         "All 5 913 insertion orders of 1..7 keys are executed against the real skip list under two comparators and every probe / bound pair is compared with a sorted-slice model; beyond that seeded random orders up to 2 000 keys and seeded k-way merges are monitored. Exhaustive for the small sub-space, sampled beyond; right level because the structures are pure in-memory code with no schedule or fault dimension.",
+         "All 5 913 insertion orders of 1..7 keys are executed against the real skip list under two comparators and every probe / bound pair is compared with a sorted-slice model; beyond that seeded random orders up to 2 000 keys and seeded k-way merges are monitored; lookups are interleaved with the inserts (incl. a next-key lookup before every insert for all permutations), key sets that are prefixes of one shared buffer and queue inputs that end with a wrapped Done are included. Exhaustive for the small sub-space, sampled beyond; right level because the structures are pure in-memory code with no schedule or fault dimension.",
          "trusts Go's sort package and the 30-line model; comparators assumed consistent", "§3 C16", "E1"),
 }
 CHECKS.update({
@@ -14,7 +14,7 @@ CHECKS.update({
          "Seeded writer programs (incl. seek-back) x 4 compressions x buffer sizes x buffered/direct I/O are executed with the real writer and read back through every reader/access path (sequential ReadNext/SkipNext mixes through the buffered and the direct-I/O reader factory, ReadNextAt, SeekNext); SeekNext is compared with the model at every byte offset of small files. Exploration: bounded by the seeded case list, biased to marker bytes and buffer/page/4KiB-window boundaries.",
          "trusts the 90-line independent layout parser only as a cross-check; payloads embedding a complete valid record image are excluded (format-level ambiguity)", "§3 C04", "E1"),
  "C12": ("fault_enumeration", "fault enumeration on generated files: every truncation length, every record-header byte x 255 values, every unsupported file-header value; oracle = independent layout parser + written records",
-         "For each generated file every truncation length and every single-byte alteration of every record-header byte (all 255 values on small files) is materialised and read with both readers; the oracle demands genuine records only. Exhaustive over single-byte header damage for the generated files, sampled over files.",
+         "For each generated file every truncation length and every single-byte alteration of every record-header byte (all 255 values on small files) is materialised and read with both readers, cut files additionally by a sequential program with SkipNext mixed in (every 4th case through the direct-I/O reader factory); the oracle demands genuine records only. Exhaustive over single-byte header damage for the generated files, sampled over files.",
          "header byte positions come from the harness's own parser (cross-checked against the writer's offsets on the undamaged file)", "§3 C12", "E1"),
  "C14": ("exploration", "reference-model monitor: map-with-tombstones model shadowing every memstore call; flush read back through the real table reader",
          "Every result/error of seeded call sequences over all methods is compared with the model, then both flush variants are read back with the real SSTable reader (Scan and Get, nil vs empty). Exploration over seeded programs; right level for a single-threaded in-memory structure.",
@@ -22,26 +22,26 @@ CHECKS.update({
 })
 CHECKS.update({
  "C03": ("exploration", "reference-model monitor: sorted-map model vs real table reader for every index loader, compression pair, bloom sizing and buffer size",
-         "Generated tables (hostile keys incl. empty key and an index-dominating last key, nil/empty/marker-laden values) are written with both writers and opened with every index loader; Contains/Get on all keys and neighbours, full/starting-at/range scans on probe samples are compared with a sorted-map model. Exploration over the seeded table list x loader matrix.",
+         "Generated tables (hostile keys incl. empty key and an index-dominating last key, nil/empty/marker-laden values) are written with both writers and opened with every index loader; Contains/Get on all keys and neighbours, full/starting-at/range scans on probe samples are compared with a sorted-map model; half of the evaluations pass all probe keys and bounds through reused caller buffers. Exploration over the seeded table list x loader matrix.",
          "map loader exercised only inside its documented fixed-width domain", "§3 C03", "E1"),
  "C08": ("exploration", "reference-model monitor: latest-wins union model vs stacked reader and real merger over stacks of real tables",
-         "Stacks of 1..6 real tables with overlapping keys, tombstones and the empty key are built; stacked Get/Contains/scans, both compacting reductions (merged into a real table and read back) and the plain merge are compared with the union model. Exploration over seeded stacks.",
+         "Stacks of 1..6 real tables with overlapping keys, tombstones and the empty key are built; stacked Get/Contains/scans, pairs of scans alive at the same time, both compacting reductions (merged into a real table and read back) and the plain merge are compared with the union model; half of the skip-list-loader stacks are ordered by a descending comparator. Exploration over seeded stacks.",
          "tombstone = nil value; nil values are filtered from merged read-backs before comparison", "§3 C08", "E1"),
 })
 CHECKS.update({
  "C09": ("fault_enumeration", "fault enumeration on generated tables: every data-file byte x 13 replacement values, every truncation, every record swap, under both verification modes; oracle = written values",
-         "For each generated table every single-byte damage (bit flips, 00, FF, marker bytes), truncation length and record swap of the data file is materialised and read back through Get, Scan and ScanRange with verify-on-load and verify-on-read; any value different from the written one returned without error, or a panic, is a violation. Exhaustive over the enumerated damage for small tables, sampled over tables.",
+         "For each generated table every single-byte damage (bit flips, 00, FF, marker bytes), truncation length and record swap of the data file is materialised and read back through Get (twice in a row and once more after the scans, on the same reader), Scan and ScanRange with verify-on-load and verify-on-read (all spellings of the option pair); one table in four contains the empty key; any value different from the written one returned without error, or a panic, is a violation. Exhaustive over the enumerated damage for small tables, sampled over tables.",
          "CRC collisions would show as violations; empty/nil values only constrained under byte damage of uncompressed tables (format design)", "§3 C09", "E1"),
  "C15": ("exploration", "reference-model monitor + fault injection at the tag-guarded writer hook: accepted-pairs model vs real stream writer under arbitrary key sequences and clean data/index append failures",
-         "Seeded WriteNext programs with unsorted/repeated/empty keys and injected data- or index-append failures (incl. immediate retries) are run against the real writer; each call's result class, the table content after Close and every metadata field (vs real file sizes) are compared with the model.",
+         "Seeded WriteNext programs with unsorted/repeated/empty keys (one in three under a difference-valued comparator, half through one reused key buffer) and injected data- or index-append failures (incl. immediate retries) are run against the real writer; each call's result class, the table content after Close and every metadata field (vs real file sizes) are compared with the model.",
          "injected failures are clean failures (wrapped writer untouched), the shape of the repository's own failing-writer test double", "§3 C15", "E1+E6a"),
  "C20": ("exploration", "differential monitor: Kaitai-generated reader vs native reader vs independent layout parser on files written by the real writer; enum names read from the published .ksy",
-         "Files with nil/empty/large records under all four compression types are decoded by the repository's Kaitai-generated reader and compared record by record (count, nil flag, stored bytes) with the native reader and an independent parser; compression codes are checked against the enum in recordio_v4.ksy.",
+         "Files with nil/empty/large records under all four compression types (one in four written by a program that rolls records back, with rollback targets from Write's result or from Size(), and refused seeks in between) are decoded by the repository's Kaitai-generated reader and compared record by record (count, nil flag, stored bytes) with the native reader and an independent parser; compression codes are checked against the enum in recordio_v4.ksy.",
          "the generated Go reader stands for the schema (no kaitai-struct-compiler offline)", "§3 C20", "E1"),
 })
 CHECKS.update({
  "C11": ("fault_enumeration", "fault injection: exhaustive single faults at every input-iterator and output-writer position of the real merger; hook-level and RLIMIT_FSIZE (kernel EFBIG) faults inside SimpleDB flush/compaction in sub-processes; oracle = fault-free output / reference map",
-         "(a) every Next position of every input (3 failure variants) and every WriteNext position of generated merges is failed once against the real Merge/MergeCompact/MergeCompactIterator; (b) flushes and compaction cycles of a real SimpleDB run in sub-processes with a failing k-th data/index append, a failing input record or a file-size limit that makes write(2) fail at a chosen byte; success may only be reported for complete output, after a reported compaction error the same and a fresh process must still read the model.",
+         "(a) every Next position of every input (3 failure variants) and every WriteNext position of generated merges is failed once against the real Merge/MergeCompact/MergeCompactIterator; (b) flushes and compaction cycles of a real SimpleDB run in sub-processes with a failing k-th data/index append, a failing input record a file-size limit that makes write(2) fail at a chosen byte, or one file of the new table on a full device (symlink to /dev/full: ENOSPC); success may only be reported for complete output, after a reported compaction error the same and a fresh process must still read the model.",
          "hook failures are clean failures; kernel faults only through RLIMIT_FSIZE (EFBIG); a failed flush ends in log.Panicf, what it leaves on disk is judged by C02", "§3 C11", "E6"),
 })
 CHECKS.update({
@@ -62,26 +62,26 @@ CHECKS.update({
          "Histories of 3..6 clients on 2..5 keys with unique written values are recorded with one monotonic clock while flushes and compactions overlap the calls (tiny memstore, 50us..1ms ticker or a chaos goroutine, delays between critical sections and one inside the reflection's critical section) and checked with porcupine; a checker timeout is inconclusive. Every 10th history has a rotation that fails (a directory planted where a coming WAL file would be created): mutations that returned an error stay in the history as open may-have-taken-effect calls (set-valued register state), Gets must keep succeeding and the history must stay linearizable. Exploration over observed interleavings.",
          "only interleavings that actually occurred are judged; the evidence counts flushes/compactions inside the client window and overlapping call pairs", "§3 C05", "E3"),
  "C18": ("exploration", "Go race detector (-race build of the child, halt_on_error=0, reports parsed and de-duplicated by innermost go-sstables frames) + sequential-answer oracle over three concurrent workloads",
-         "One SimpleDB handle (8 goroutines, own+shared keys, rotations and compactions running), one SSTableReader (8..16 goroutines of Get/Contains/range scans) and one MMapReader (ReadNextAt/SeekNext) are exercised in the race-detector build across seeds and GOMAXPROCS {2,4,16}; any report touching go-sstables or the harness, any abnormal exit and any result differing from the sequential answer is a violation.",
+         "One SimpleDB handle (8 goroutines, own+shared keys, rotations and compactions running), one SSTableReader (8..16 goroutines of Get/Contains/range scans; one table in three without a bloom filter file) and one MMapReader (ReadNextAt/SeekNext) are exercised in the race-detector build across seeds and GOMAXPROCS {2,4,16}; any report touching go-sstables or the harness, any abnormal exit, any result differing from the sequential answer and any state-based deadlock (a client blocked inside the library while no library goroutine can run, read off the watchdog's goroutine dump) is a violation.",
          "the race detector reports only races that happened in the observed executions; Scan() is outside the documented concurrent surface", "§3 C18", "E4"),
  "C19": ("exploration", "resource census monitor: /proc/self/fd + /proc/self/maps filtered by directory and goroutine dump filtered by go-sstables frames, at quiescent points and after Close",
-         "Driven SimpleDB sessions with >=40 cycles are censused at every quiescent point (descriptors <= 4, mappings <= live tables + 3) and after Close (nothing left, no library goroutine, re-Open and RemoveAll work); live sessions are closed while a compaction is held in flight at a hook point; table and RecordIO readers/writers (incl. failed Opens and abandoned scans) must return to the baseline after Close.",
+         "Driven SimpleDB sessions with >=40 cycles are censused at every quiescent point (descriptors <= 4, mappings <= live tables + 3) and after Close (nothing left, no library goroutine, re-Open and RemoveAll work); live sessions are closed while a compaction is held in flight at a hook point; table and RecordIO readers/writers (incl. failed Opens, abandoned scans, legacy-format tables and stacked readers one member of which was closed before) must return to the baseline after Close.",
          "Linux /proc is the ground truth; goroutine attribution by stack frames", "§3 C19", "E5"),
 })
 CHECKS.update({
  "C02": ("fault_enumeration", "offline checker over recorded system-call logs: strace -f trace of real sessions -> in-memory file-system replay -> crash image at every mutating call (+ unlink-order permutations) -> fresh-process Open + read-all compared with the acknowledged-operations model",
-         "Whole sessions (open, operations, size-triggered and forced rotations, background flushes and compactions, close, reopen) run under strace with INV/ACK markers in the same log; every boundary between two file-system-mutating system calls of any thread is turned into a directory image (fidelity self-check: final replayed image == real directory) and every distinct image is recovered by a fresh process; Open must succeed and each key must read model(acked) or model(acked + in-flight op). Enumerates every crash point of the traced executions; sessions/schedules are sampled.",
+         "Whole sessions (open, operations incl. runs of consecutive deletes, memstore limits from 16 bytes to 64 MiB, values up to 6 MiB, size-triggered and forced rotations, background flushes and compactions, close, reopen) run under strace with INV/ACK markers in the same log; every boundary between two file-system-mutating system calls of any thread is turned into a directory image (fidelity self-check: final replayed image == real directory) and every distinct image is recovered by a fresh process; Open must succeed and each key must read model(acked) or model(acked + in-flight op). Enumerates every crash point of the traced executions; sessions/schedules are sampled.",
          "kill -9 model (completed system calls retained, single write not torn); schedules are those that occurred under strace; other listing orders emulated for unlink runs only", "§2.2, §3 C02", "E2"),
 })
 CHECKS.update({
  "C07": ("fault_enumeration", "reference-model monitor (appended sequence vs fresh Replay) + offline checkers over strace logs of WAL-only sessions: crash image at every mutating call -> Replay in a fresh process must give a prefix containing all acknowledged sync appends; fsync-ordering monitor over write/fsync events",
-         "(a) seeded append/rotate programs over limits {9..1MiB}, buffers and compressions are replayed by a fresh replayer; (b) WAL-only sessions run under strace with small writer buffers so that flushes cut records, every boundary between mutating system calls is materialised and replayed by a fresh process; (c) the same log is scanned for 'write reached the file and the file was fsynced before AppendSync returned'.",
+         "(a) seeded append/rotate programs over limits {9..1MiB}, buffers and compressions (every 20th through the direct-I/O writer) are replayed through the still-open log object in between and by the same object and a fresh replayer at the end; (b) WAL-only sessions run under strace with small writer buffers so that flushes cut records, every boundary between mutating system calls is materialised and replayed by a fresh process; (c) the same log is scanned for 'write reached the file and the file was fsynced before AppendSync returned'; (d) programs whose appender meets a failing write(2) (RLIMIT_FSIZE in a sub-process) and goes on appending, retrying and rotating: replay must succeed and deliver the attempts minus failed ones as a gap-free prefix containing every acknowledged sync append.",
          "kill -9 model; nil and empty records are both length-0 payloads for the oracle", "§3 C07", "E1+E2"),
  "C10": ("fault_enumeration", "nested crash-image enumeration: level-1 images from traced sessions, recovery of each traced again, level-2 (sampled level-3) image at every mutating call of Open incl. unlink-order permutations; oracle = read-all after the uninterrupted recovery",
          "For sampled crash images of real sessions (per phase, incl. pending flagged compactions and non-empty WALs) the recovery itself runs under strace; after every mutating system call of that recovery (and for every subset of each listing-ordered unlink run) a fresh Open must succeed and read exactly what the uninterrupted recovery reads. Exhaustive over the crash points of the traced recoveries; level-1 images are sampled.",
          "kill -9 model; only unlinks issued relative to a directory descriptor (os.RemoveAll) are permuted, program-ordered unlinks are not", "§2.2, §3 C10", "E2"),
  "C13": ("fault_enumeration", "same engine as C02 with the asynchronous WAL: oracle = recovered content equals the reference map after some prefix p >= L of the invoked operations, L = operations acknowledged before the newest WAL file was created",
-         "Traced sessions with EnableAsyncWAL, including ones that log 6..25 MB of incompressible values so that the 4 MiB WAL buffer wraps and cuts records; every crash image is recovered by a fresh process; Open must succeed and the content must be a hole-free, order-preserving prefix that includes everything before the last rotation.",
+         "Traced sessions with EnableAsyncWAL, including ones that log 6..25 MB of incompressible values so that the 4 MiB WAL buffer wraps and cuts records (every second of those through the direct-I/O WAL writer on a real disk); every crash image is recovered by a fresh process; Open must succeed and the content must be a hole-free, order-preserving prefix that includes everything before the last rotation.",
          "kill -9 model; the in-flight operation may be the last element of the prefix", "§3 C13", "E2"),
 })
 NOT_YET = {}
